@@ -361,6 +361,8 @@ def _read_request(
     external_config: ExternalLocationConfig | None = None,
     shm: ShmSegment | None = None,
     attach_shm: Callable[[pa.KeyValueMetadata | None], ShmSegment | None] | None = None,
+    *,
+    answer_malformed: bool = False,
 ) -> tuple[str, dict[str, object]]:
     """Read a request IPC stream, return (method_name, kwargs).
 
@@ -391,6 +393,13 @@ def _read_request(
             to the transport kind), or ``None`` to disable dynamic attach.
             Used only when *shm* is ``None`` and the request is a shm
             pointer; the segment it returns is detached before returning.
+        answer_malformed: When ``True`` (the pipe / socket serve loop), any
+            failure to interpret a request whose stream has already been
+            consumed is raised as ``RpcError("ProtocolError")`` so the caller
+            answers it and keeps serving: the connection is still in sync, so
+            letting e.g. a ``UnicodeDecodeError`` escape would end the serve
+            loop without a reply.  The message names only the exception type,
+            never its text.  ``False`` keeps the exceptions as they are.
 
     Returns:
         ``(method_name, kwargs)`` — the dispatched method name and its
@@ -404,13 +413,37 @@ def _read_request(
 
     """
     reader = ValidatedReader(ipc.open_stream(reader_stream), ipc_validation)
-    batch, custom_metadata = reader.read_next_batch_with_custom_metadata()
+    try:
+        batch, custom_metadata = reader.read_next_batch_with_custom_metadata()
+    except StopIteration:
+        if not answer_malformed:
+            raise
+        # A complete IPC stream without a batch: fully consumed, so answer it.
+        raise RpcError("ProtocolError", "Request stream contained no request batch.", "") from None
     # Drain past the request stream's EOS *before* any validation that
     # might raise.  On pipe/subprocess transports the underlying reader
     # is shared across requests, so a rejected request that left bytes
     # in the IPC stream would corrupt the next request's framing and
     # tear down the worker connection.
     _drain_stream(reader)
+    try:
+        return _parse_request(batch, custom_metadata, external_config, shm, attach_shm)
+    except (RpcError, VersionError):
+        raise
+    except Exception as exc:
+        if not answer_malformed:
+            raise
+        raise RpcError("ProtocolError", f"Malformed request ({type(exc).__name__}).", "") from exc
+
+
+def _parse_request(
+    batch: pa.RecordBatch,
+    custom_metadata: pa.KeyValueMetadata | None,
+    external_config: ExternalLocationConfig | None,
+    shm: ShmSegment | None,
+    attach_shm: Callable[[pa.KeyValueMetadata | None], ShmSegment | None] | None,
+) -> tuple[str, dict[str, object]]:
+    """Interpret an already-read request batch; runs only after the request stream was drained."""
     _current_request_metadata.set(custom_metadata)
     # Stash the batch for access-log enrichment -- but only when the
     # transport has not already captured the raw wire bytes, which are
